@@ -2,7 +2,7 @@
 # usage: mkworktree.sh <id>   -> /tmp/wt-<id>, a detached worktree of /repo HEAD with a warm target dir
 set -e
 id=$1
-git -C /repo worktree add --detach /tmp/wt-$id HEAD >/dev/null 2>&1
-mkdir -p /tmp/wt-$id/SEED
-cp -r /repo/target /tmp/wt-$id/target
-echo /tmp/wt-$id
+git -C /repo worktree add --detach /tmp/${PREFIX:-wt}-$id HEAD >/dev/null 2>&1
+mkdir -p /tmp/${PREFIX:-wt}-$id/SEED
+cp -r /repo/target /tmp/${PREFIX:-wt}-$id/target
+echo /tmp/${PREFIX:-wt}-$id
